@@ -611,6 +611,11 @@ func KnownNonNil(v ssa.Value) bool {
 			full := f.Pkg.Pkg.Path() + "." + f.Name()
 			return full == "fmt.Errorf" || full == "errors.New"
 		}
+		// ctx.Err() on the arm of a select that found ctx.Done() closed
+		// (the documented contract of context.Context)
+		if x.Call.IsInvoke() && x.Call.Method.Name() == "Err" && x.Call.Method.Pkg() != nil && x.Call.Method.Pkg().Path() == "context" {
+			return afterDone(x)
+		}
 	case *ssa.MakeInterface:
 		if _, isPtr := x.X.Type().Underlying().(*types.Pointer); !isPtr {
 			return true
@@ -622,6 +627,41 @@ func KnownNonNil(v ssa.Value) bool {
 	case *ssa.UnOp:
 		if g, ok := x.X.(*ssa.Global); ok && x.Op == token.MUL {
 			return GlobalIsErrSentinel(g)
+		}
+	}
+	return false
+}
+
+// afterDone: the ctx.Err() call runs only on the arm of a select that received
+// from Done() of the same context value.
+func afterDone(call *ssa.Call) bool {
+	fn := call.Parent()
+	if fn == nil {
+		return false
+	}
+	for _, b := range fn.Blocks {
+		for _, in := range b.Instrs {
+			sel, ok := in.(*ssa.Select)
+			if !ok {
+				continue
+			}
+			for i, st := range sel.States {
+				dc, isCall := st.Chan.(*ssa.Call)
+				if st.Dir != types.RecvOnly || !isCall || !dc.Call.IsInvoke() || dc.Call.Method.Name() != "Done" || dc.Call.Value != call.Call.Value {
+					continue
+				}
+				for _, r := range Refs(sel) {
+					e, isE := r.(*ssa.Extract)
+					if !isE || e.Index != 0 {
+						continue
+					}
+					for _, ib := range IntEqBranches(e) {
+						if ib.K == int64(i) && EdgeDominates(fn, ib.Edge(), call.Block()) {
+							return true
+						}
+					}
+				}
+			}
 		}
 	}
 	return false
